@@ -378,3 +378,951 @@ Proof.
       * intros k [<-|[]] Hk2. specialize (F' _ Hk2). lia.
     + intros Hs. constructor; auto. unfold exact_kid. destruct cs as [|c0 [|c1 cr]]; simpl in H2; try lia; exact I.
 Qed.
+
+(* ====================================================================================================
+   Part 2: closing the group.
+   ==================================================================================================== *)
+
+(* ---------- lifting one child (Ham._add_missing_taxon), relationally ---------- *)
+Definition liftrel (a : taxon) (y top : hog) : Prop :=
+  exists o i, top = chain_pure o i (path_up (htax y) a) None y.
+
+Lemma lift_member_spec hid a k y s :
+  exists top s', lift_member hid a k y s = Ok ((Some k, top), s') /\ liftrel a y top /\
+    s_oid s <= s_oid s' /\ s_dup s' = s_dup s /\ s_dups s' = s_dups s.
+Proof.
+  unfold lift_member. destruct (chain_id_same y hid s) as [i Ei]. unfold bind at 1. rewrite Ei.
+  destruct (chain_spec i (path_up (htax y) a) None y s) as (s' & E & O & D & DS & _).
+  unfold bind at 1. rewrite E. eexists _, s'. split; [reflexivity|]. split; [exists (s_oid s), i; reflexivity|].
+  split; [lia|]. split; [exact D|exact DS].
+Qed.
+
+Lemma mapM_lift hid a k ys : forall s,
+  exists tops s', mapM (lift_member hid a k) ys s = Ok (map (pair (Some k)) tops, s') /\ Forall2 (liftrel a) ys tops /\
+    s_oid s <= s_oid s' /\ s_dup s' = s_dup s /\ s_dups s' = s_dups s.
+Proof.
+  induction ys as [|y r IH]; intros s.
+  - exists [], s. simpl. repeat split; auto.
+  - destruct (lift_member_spec hid a k y s) as (top & s1 & E1 & L1 & O1 & D1 & DS1).
+    destruct (IH s1) as (tops & s2 & E2 & L2 & O2 & D2 & DS2).
+    exists (top :: tops), s2. cbn [mapM]. unfold bind at 1. rewrite E1. unfold bind at 1. rewrite E2.
+    split; [reflexivity|]. split; [constructor; auto|]. split; [lia|]. split; congruence.
+Qed.
+
+(* ---------- permutations and the per-flag views ---------- *)
+Lemma members_of_perm k ks ks' : Permutation ks ks' -> Permutation (members_of k ks) (members_of k ks').
+Proof. intros H. unfold members_of. apply Permutation_map. apply filter_perm. exact H. Qed.
+
+Lemma not_member_gkids k gs : ~ In k (gflags gs) -> filter (not_member k) (gkids gs) = gkids gs.
+Proof.
+  intros Hn. apply filter_all. intros kd Hkd. destruct kd as [[k'|] c]; [|reflexivity].
+  unfold not_member. simpl. destruct (Nat.eqb k k') eqn:E; [|reflexivity]. apply Nat.eqb_eq in E. subst.
+  exfalso. apply Hn. eapply gkids_flags_in; eauto.
+Qed.
+
+Lemma not_member_own k ys : filter (not_member k) (map (pair (Some k)) ys) = [].
+Proof. apply filter_none. intros kd Hkd. apply in_map_iff in Hkd as (y & <- & _). unfold not_member. simpl. now rewrite Nat.eqb_refl. Qed.
+
+Lemma members_of_gkids_none k gs : ~ In k (gflags gs) -> members_of k (gkids gs) = [].
+Proof. intros Hn. apply members_of_gkids_fresh. intros k' Hk' ->. contradiction. Qed.
+
+Lemma Forall2_perm_l {X Y} (R : X -> Y -> Prop) l1 l2 l1' :
+  Forall2 R l1 l2 -> Permutation l1 l1' -> exists l2', Permutation l2 l2' /\ Forall2 R l1' l2'.
+Proof.
+  intros HF Hp. revert l2 HF. induction Hp as [|x l l' Hp IH|x y l|l l' l'' H1 IH1 H2 IH2]; intros l2 HF.
+  - inversion HF; subst. exists []. split; constructor.
+  - inversion HF as [|? b ? r Hxb Hr]; subst. destruct (IH r Hr) as (r' & P & F). exists (b :: r'). split; constructor; auto.
+  - inversion HF as [|? b ? r Hb Hr]; subst. inversion Hr as [|? c ? r' Hc Hr']; subst.
+    exists (c :: b :: r'). split; [apply perm_swap|]. constructor; [exact Hc|constructor; [exact Hb|exact Hr']].
+  - destruct (IH1 l2 HF) as (m & P1 & F1). destruct (IH2 m F1) as (m' & P2 & F2). exists m'. split; [eapply Permutation_trans; eauto|exact F2].
+Qed.
+
+(* ---------- one duplication re-homed ---------- *)
+Definition mrca_eq (s s' : lstate) : Prop := forall k a, mrca_is s k a <-> mrca_is s' k a.
+
+Lemma mrca_eq_refl s : mrca_eq s s.
+Proof. intros k a. tauto. Qed.
+Lemma mrca_eq_trans s1 s2 s3 : mrca_eq s1 s2 -> mrca_eq s2 s3 -> mrca_eq s1 s3.
+Proof. intros H1 H2 k a. rewrite (H1 k a). apply H2. Qed.
+Lemma mrca_eq_same_dups s s' : s_dups s' = s_dups s -> mrca_eq s s'.
+Proof. intros H k a. unfold mrca_is. rewrite H. tauto. Qed.
+
+(* the group a flagged lineage turns into *)
+Inductive r_rel (p : taxon) (s : lstate) : option nat * list hog -> option nat * list hog -> Prop :=
+| rr_none ys : r_rel p s (None, ys) (None, ys)
+| rr_own k ys tops : mrca_is s k p -> Forall2 (liftrel p) ys tops -> r_rel p s (Some k, ys) (Some k, tops)
+| rr_sole k ys a mo m lifted tops :
+    mrca_is s k a -> a <> p -> Forall2 (liftrel a) ys tops -> Permutation lifted (map (pair (Some k)) tops) ->
+    r_rel p s (Some k, ys) (None, [HHog mo a m lifted]).
+
+Lemma r_rel_mrca_eq p s s' g g' : mrca_eq s s' -> r_rel p s' g g' -> r_rel p s g g'.
+Proof.
+  intros He H. destruct H as [ys|k ys tops Hm HF|k ys a mo m lifted tops Hm Ha HF HP].
+  - constructor.
+  - constructor; auto. apply He. exact Hm.
+  - econstructor; eauto. apply He. exact Hm.
+Qed.
+
+Lemma dup_update_parent_mrca k par s d :
+  dup_lookup k (s_dups s) = Some d -> dups_dom s ->
+  exists s', dup_update k (fun d0 => {| di_og := di_og d0; di_mrca := di_mrca d0; di_parent := par |}) s = Ok (tt, s') /\
+    s_oid s' = s_oid s /\ s_dup s' = s_dup s /\ dups_dom s' /\ mrca_eq s s' /\
+    (forall k', k' <> k -> dup_lookup k' (s_dups s') = dup_lookup k' (s_dups s)).
+Proof.
+  intros Hd Hdom.
+  destruct (dup_update_spec k (fun d0 => {| di_og := di_og d0; di_mrca := di_mrca d0; di_parent := par |}) s d Hd Hdom)
+    as (s1 & E1 & O1 & D1 & Hdom1 & L1 & K1).
+  exists s1. split; [exact E1|]. split; [exact O1|]. split; [exact D1|]. split; [exact Hdom1|]. split; [|exact K1].
+  intros k' a. unfold mrca_is. destruct (Nat.eq_dec k' k) as [->|Hne].
+  - rewrite Hd, L1. split; intros (d' & E & Hm); inversion E; subst; eexists; split; eauto.
+  - rewrite K1 by exact Hne. tauto.
+Qed.
+
+Lemma rehome_spec hid hoid p pre post k ys ks s a :
+  Permutation ks (gkids pre ++ map (pair (Some k)) ys ++ gkids post) ->
+  ~ In k (gflags pre) -> ~ In k (gflags post) -> mrca_is s k a -> dups_dom s ->
+  exists g' ks' s', rehome hid hoid p ks k s = Ok (ks', s') /\ Permutation ks' (gkids (pre ++ [g']) ++ gkids post) /\
+    r_rel p s (Some k, ys) g' /\ (forall k', In k' (gflags [g']) -> k' = k) /\
+    s_oid s <= s_oid s' /\ s_dup s' = s_dup s /\ dups_dom s' /\ mrca_eq s s' /\
+    (forall k', k' <> k -> dup_lookup k' (s_dups s') = dup_lookup k' (s_dups s)).
+Proof.
+  intros HP Hpre Hpost (d & Hd & Hm) Hdom.
+  assert (Hmem : Permutation (members_of k ks) ys).
+  { eapply Permutation_trans; [apply members_of_perm; exact HP|].
+    rewrite !members_of_app, members_of_flag, !members_of_gkids_none by assumption. simpl. rewrite app_nil_r. apply Permutation_refl. }
+  assert (Hrest : Permutation (filter (not_member k) ks) (gkids pre ++ gkids post)).
+  { eapply Permutation_trans; [apply filter_perm; exact HP|].
+    rewrite !filter_app, not_member_own, !not_member_gkids by assumption. apply Permutation_refl. }
+  unfold rehome. unfold bind at 1. unfold dup_mrca. rewrite Hd, Hm.
+  destruct (taxon_eqb a p) eqn:Eap; cbn [negb].
+  - (* the duplication of this very group *)
+    apply taxon_eqb_eq in Eap. subst a.
+    destruct (dup_update_parent_mrca k (Some hoid) s d Hd Hdom) as (s1 & E1 & O1 & D1 & Hdom1 & Q1 & K1).
+    unfold bind at 1. rewrite E1.
+    destruct (mapM_lift hid p k (members_of k ks) s1) as (tops' & s2 & E2 & L2 & O2 & D2 & DS2).
+    unfold bind at 1. rewrite E2.
+    destruct (Forall2_perm_l _ _ _ _ L2 Hmem) as (tops & PT & FT).
+    exists (Some k, tops). eexists _, s2. split; [reflexivity|]. split; [|split; [|split; [|split; [|split; [|split; [|split]]]]]].
+    + rewrite gkids_app. unfold gkids at 3. simpl. rewrite app_nil_r.
+      eapply Permutation_trans; [apply Permutation_app; [exact Hrest|apply Permutation_map; exact PT]|].
+      rewrite <- !app_assoc. apply Permutation_app_head. apply Permutation_app_comm.
+    + constructor; [exists d; auto|exact FT].
+    + intros k' [<-|[]]. reflexivity.
+    + lia.
+    + congruence.
+    + unfold dups_dom. rewrite D2, DS2. exact Hdom1.
+    + eapply mrca_eq_trans; [exact Q1|]. apply mrca_eq_same_dups. exact DS2.
+    + intros k' Hk'. rewrite DS2. apply K1. exact Hk'.
+  - (* a HOG that was spelt as its only duplication: an intermediate HOG at the duplication's level *)
+    apply taxon_eqb_neq in Eap.
+    destruct (ensure_spec a s) as (s1 & E1 & O1 & D1 & DS1). unfold bind at 1. rewrite E1.
+    destruct (fresh_oid_spec s1) as (s2 & E2 & O2 & D2 & DS2). unfold bind at 1. rewrite E2.
+    destruct (register_spec a (RHog (s_oid s1)) s2) as (s3 & E3 & O3 & D3 & DS3). unfold bind at 1. rewrite E3.
+    destruct (mapM_lift hid a k (members_of k ks) s3) as (tops' & s4 & E4 & L4 & O4 & D4 & DS4).
+    unfold bind at 1. rewrite E4.
+    assert (Hd4 : dup_lookup k (s_dups s4) = Some d) by (rewrite DS4, DS3, DS2, DS1; exact Hd).
+    assert (Hdom4 : dups_dom s4) by (unfold dups_dom; rewrite D4, D3, D2, D1, DS4, DS3, DS2, DS1; exact Hdom).
+    destruct (dup_update_parent_mrca k (Some (s_oid s1)) s4 d Hd4 Hdom4) as (s5 & E5 & O5 & D5 & Hdom5 & Q5 & K5).
+    unfold bind at 1. rewrite E5.
+    destruct (Forall2_perm_l _ _ _ _ L4 Hmem) as (tops & PT & FT).
+    eexists (None, [HHog (s_oid s1) a (synth_meta hid) (map (pair (Some k)) tops')]). eexists _, s5.
+    split; [reflexivity|]. split; [|split; [|split; [|split; [|split; [|split; [|split]]]]]].
+    + rewrite gkids_app. unfold gkids at 3. simpl.
+      eapply Permutation_trans; [apply Permutation_app_tail; exact Hrest|].
+      rewrite <- !app_assoc. apply Permutation_app_head. apply Permutation_app_comm.
+    + eapply rr_sole; [exists d; eauto|exact Eap|exact FT|apply Permutation_map; exact PT].
+    + intros k' [].
+    + lia.
+    + congruence.
+    + exact Hdom5.
+    + eapply mrca_eq_trans; [|exact Q5]. apply mrca_eq_same_dups. rewrite DS4, DS3, DS2, DS1. reflexivity.
+    + intros k' Hk'. rewrite K5 by exact Hk'. rewrite DS4, DS3, DS2, DS1. reflexivity.
+Qed.
+
+(* ---------- all duplications of the group re-homed ---------- *)
+Lemma gkids_cons f ys gs : gkids ((f, ys) :: gs) = map (pair f) ys ++ gkids gs.
+Proof. reflexivity. Qed.
+Lemma gflags_cons_none ys gs : gflags ((None, ys) :: gs) = gflags gs.
+Proof. reflexivity. Qed.
+Lemma gflags_cons_some k ys gs : gflags ((Some k, ys) :: gs) = k :: gflags gs.
+Proof. reflexivity. Qed.
+
+Lemma rehome_phase hid hoid p gr : forall pre ks s,
+  Permutation ks (gkids pre ++ gkids gr) -> NoDup (gflags gr) ->
+  (forall k, In k (gflags gr) -> ~ In k (gflags pre)) ->
+  (forall k, In k (gflags gr) -> exists a, mrca_is s k a) -> dups_dom s ->
+  exists cur ks' s', foldM (rehome hid hoid p) (gflags gr) ks s = Ok (ks', s') /\
+    Permutation ks' (gkids (pre ++ cur)) /\ Forall2 (r_rel p s) gr cur /\
+    (forall k, In k (gflags cur) -> In k (gflags gr)) /\ NoDup (gflags cur) /\
+    s_oid s <= s_oid s' /\ s_dup s' = s_dup s /\ dups_dom s' /\ mrca_eq s s' /\
+    (forall k', ~ In k' (gflags gr) -> dup_lookup k' (s_dups s') = dup_lookup k' (s_dups s)).
+Proof.
+  induction gr as [|[[k|] ys] gr' IH]; intros pre ks s HP Hnd Hdisj Hmr Hdom.
+  - exists [], ks, s. simpl in *. rewrite !app_nil_r in *. split; [reflexivity|]. split; [exact HP|]. split; [constructor|].
+    split; [intros k []|]. split; [constructor|]. split; [lia|]. split; [reflexivity|]. split; [exact Hdom|]. split; [apply mrca_eq_refl|auto].
+  - rewrite gflags_cons_some in *. inversion Hnd as [|? ? Hk Hnd']; subst.
+    destruct (Hmr k (or_introl eq_refl)) as [a Ha].
+    destruct (rehome_spec hid hoid p pre gr' k ys ks s a) as (g' & ks1 & s1 & E1 & P1 & R1 & F1 & O1 & D1 & Hdom1 & Q1 & U1); auto.
+    { apply Hdisj. left. reflexivity. }
+    destruct (IH (pre ++ [g']) ks1 s1 P1 Hnd') as (cur & ks2 & s2 & E2 & P2 & R2 & I2 & N2 & O2 & D2 & Hdom2 & Q2 & U2).
+    + intros k' Hk' Hin. rewrite gflags_app in Hin. apply in_app_or in Hin as [Hin|Hin].
+      * apply (Hdisj k'); [right; exact Hk'|exact Hin].
+      * apply F1 in Hin. subst k'. contradiction.
+    + intros k' Hk'. destruct (Hmr k' (or_intror Hk')) as [a' Ha']. exists a'. apply Q1. exact Ha'.
+    + exact Hdom1.
+    + exists (g' :: cur), ks2, s2. split; [cbn [foldM]; unfold bind; rewrite E1; exact E2|].
+      split; [rewrite <- app_assoc in P2; exact P2|].
+      split; [constructor; [exact R1|]; clear - R2 Q1; induction R2; constructor; auto; eapply r_rel_mrca_eq; eauto|].
+      split; [|split; [|split; [lia|split; [congruence|split; [exact Hdom2|split; [eapply mrca_eq_trans; eauto|]]]]]].
+      * intros k' Hin. change (g' :: cur) with ([g'] ++ cur) in Hin. rewrite gflags_app in Hin. apply in_app_or in Hin as [Hin|Hin].
+        -- apply F1 in Hin. subst. left. reflexivity.
+        -- right. apply I2. exact Hin.
+      * change (g' :: cur) with ([g'] ++ cur). rewrite gflags_app. apply nodup_app_intro; auto.
+        -- destruct R1; unfold gflags; simpl; constructor; auto; constructor.
+        -- intros k' Hin Hin2. apply F1 in Hin. subst k'. apply Hk. apply I2. exact Hin2.
+      * intros k' Hk'. rewrite U2 by (intros Hin; apply Hk'; right; exact Hin). apply U1. intros ->. apply Hk'. left. reflexivity.
+  - rewrite gflags_cons_none in *.
+    destruct (IH (pre ++ [(None, ys)]) ks s) as (cur & ks2 & s2 & E2 & P2 & R2 & I2 & N2 & R); auto.
+    + rewrite gkids_app. unfold gkids at 2. simpl. rewrite app_nil_r, <- app_assoc. exact HP.
+    + intros k' Hk' Hin. rewrite gflags_app in Hin. apply in_app_or in Hin as [Hin|[]]. apply (Hdisj k'); assumption.
+    + exists ((None, ys) :: cur), ks2, s2. split; [exact E2|]. split; [rewrite <- app_assoc in P2; exact P2|].
+      split; [constructor; [constructor|exact R2]|]. split; [exact I2|]. split; [exact N2|exact R].
+Qed.
+
+Lemma dup_keys_gkids gs : forall seen,
+  Forall (fun g : option nat * list hog => snd g <> []) gs -> NoDup (gflags gs) -> (forall k, In k (gflags gs) -> ~ In k seen) ->
+  dup_keys (gkids gs) seen = gflags gs.
+Proof.
+  induction gs as [|[[k|] ys] gr IH]; intros seen Hne Hnd Hs; [reflexivity| |].
+  - inversion Hne as [|? ? Hy Hner]; subst. simpl in Hy. rewrite gflags_cons_some in *. inversion Hnd as [|? ? Hk Hnd']; subst.
+    rewrite gkids_cons. destruct ys as [|y yr]; [contradiction|]. cbn [map app dup_keys].
+    assert (E : existsb (Nat.eqb k) seen = false).
+    { destruct (existsb (Nat.eqb k) seen) eqn:E; auto. apply existsb_exists in E as (x & Hx & Ex). apply Nat.eqb_eq in Ex. subst x.
+      exfalso. apply (Hs k); [left; reflexivity|exact Hx]. }
+    rewrite E. f_equal.
+    (* the remaining copies carry a flag already seen *)
+    assert (Hskip : forall zs, dup_keys (map (pair (Some k)) zs ++ gkids gr) (k :: seen) = dup_keys (gkids gr) (k :: seen)).
+    { induction zs as [|z zr IHz]; [reflexivity|]. cbn [map app dup_keys existsb]. rewrite Nat.eqb_refl. exact IHz. }
+    rewrite Hskip. apply IH; auto. intros k' Hk' [<-|Hin]; [contradiction|]. apply (Hs k'); [right; exact Hk'|exact Hin].
+  - inversion Hne as [|? ? Hy Hner]; subst. rewrite gflags_cons_none in *. rewrite gkids_cons.
+    assert (Hskip : forall zs, dup_keys (map (pair None) zs ++ gkids gr) seen = dup_keys (gkids gr) seen).
+    { induction zs as [|z zr IHz]; [reflexivity|]. cbn [map app dup_keys]. exact IHz. }
+    rewrite Hskip. apply IH; auto.
+Qed.
+
+(* ---------- the generic missing-level pass ---------- *)
+Definition gen_out (p : taxon) (o : nat) (i : option string) (kd : kid) : kid :=
+  match path_up (htax (snd kd)) p with
+  | [] => kd
+  | path => (None, chain_pure o i path (fst kd) (snd kd))
+  end.
+Definition genrel (p : taxon) (kd kd' : kid) : Prop := exists o i, kd' = gen_out p o i kd.
+
+Lemma lift_generic_spec hid p kd s :
+  exists kd' s', lift_generic hid p kd s = Ok (kd', s') /\ genrel p kd kd' /\
+    s_oid s <= s_oid s' /\ s_dup s' = s_dup s /\ s_dups s' = s_dups s.
+Proof.
+  unfold lift_generic, genrel, gen_out. destruct (chain_id_same (snd kd) hid s) as [i Ei]. unfold bind at 1. rewrite Ei.
+  destruct (path_up (htax (snd kd)) p) as [|tx r] eqn:Ep.
+  - exists kd, s. split; [reflexivity|]. split; [exists 0, None; reflexivity|]. auto.
+  - destruct (chain_spec i (tx :: r) (fst kd) (snd kd) s) as (s' & E & O & D & DS & _).
+    unfold bind at 1. rewrite E. eexists _, s'. split; [reflexivity|]. split; [exists (s_oid s), i; reflexivity|].
+    split; [lia|]. split; [exact D|exact DS].
+Qed.
+
+Lemma generic_pass_spec hid p ks s :
+  exists lifted s', generic_pass hid p ks s = Ok (filter (adjacent p) ks ++ lifted, s') /\
+    Forall2 (genrel p) (filter (fun kd => negb (adjacent p kd)) ks) lifted /\
+    s_oid s <= s_oid s' /\ s_dup s' = s_dup s /\ s_dups s' = s_dups s.
+Proof.
+  unfold generic_pass. generalize (filter (fun kd => negb (adjacent p kd)) ks) as na. intros na.
+  assert (H : exists lifted s', mapM (lift_generic hid p) na s = Ok (lifted, s') /\ Forall2 (genrel p) na lifted /\
+                s_oid s <= s_oid s' /\ s_dup s' = s_dup s /\ s_dups s' = s_dups s).
+  { clear ks. revert s. induction na as [|kd r IH]; intros s.
+    - exists [], s. simpl. repeat split; auto.
+    - destruct (lift_generic_spec hid p kd s) as (kd' & s1 & E1 & G1 & O1 & D1 & DS1).
+      destruct (IH s1) as (lifted & s2 & E2 & G2 & O2 & D2 & DS2).
+      exists (kd' :: lifted), s2. cbn [mapM]. unfold bind at 1. rewrite E1. unfold bind at 1. rewrite E2.
+      split; [reflexivity|]. split; [constructor; auto|]. split; [lia|]. split; congruence. }
+  destruct H as (lifted & s' & E & G & R). exists lifted, s'. unfold bind. rewrite E. split; [reflexivity|]. split; [exact G|exact R].
+Qed.
+
+(* a group after the pass: untouched when all its members are adjacent; a lone unflagged member that is
+   not adjacent is replaced by the top of its chain *)
+Definition g_rel (p : taxon) (g g' : option nat * list hog) : Prop :=
+  (forall y, In y (snd g) -> adjacent p (fst g, y) = true) /\ g' = g \/
+  exists y kd', g = (None, [y]) /\ adjacent p (None, y) = false /\ genrel p (None, y) kd' /\ g' = (fst kd', [snd kd']).
+
+Lemma adjacent_flag p f f' y : adjacent p (f, y) = adjacent p (f', y).
+Proof. reflexivity. Qed.
+
+Lemma generic_assemble p cur : forall lifted,
+  Forall (fun g => (forall y, In y (snd g) -> adjacent p (fst g, y) = true) \/
+                   exists y, g = (None, [y]) /\ adjacent p (None, y) = false) cur ->
+  Forall2 (genrel p) (filter (fun kd => negb (adjacent p kd)) (gkids cur)) lifted ->
+  exists fg, Forall2 (g_rel p) cur fg /\ Permutation (filter (adjacent p) (gkids cur) ++ lifted) (gkids fg).
+Proof.
+  induction cur as [|g cur IH]; intros lifted Hshape HF.
+  - simpl in HF. inversion HF; subst. exists []. split; constructor.
+  - inversion Hshape as [|? ? Hg Hcur]; subst. destruct g as [f ys]. rewrite gkids_cons in *. rewrite !filter_app in *.
+    unfold kid in *.
+    destruct Hg as [Hadj|(y & Eg & Hna)].
+    + simpl in Hadj.
+      match type of HF with Forall2 _ (?a ++ _) _ => assert (E1 : a = []) end.
+      { apply filter_none. intros kd Hkd. apply in_map_iff in Hkd as (y & <- & Hy). rewrite (Hadj y Hy). reflexivity. }
+      match goal with |- context [Permutation ((?a ++ _) ++ _) _] => assert (E2 : a = map (pair f) ys) end.
+      { apply filter_all. intros kd Hkd. apply in_map_iff in Hkd as (y & <- & Hy). exact (Hadj y Hy). }
+      rewrite E1 in HF. simpl in HF. destruct (IH lifted Hcur HF) as (fg & F & P).
+      exists ((f, ys) :: fg). split; [constructor; [left; split; [exact Hadj|reflexivity]|exact F]|].
+      rewrite E2, gkids_cons, <- app_assoc. apply Permutation_app_head. exact P.
+    + inversion Eg; subst f ys. cbn [map filter] in *. rewrite Hna in *. cbn [negb app] in *.
+      inversion HF as [|? kd' ? lifted' Hkd' HF']; subst.
+      destruct (IH lifted' Hcur HF') as (fg & F & P).
+      exists ((fst kd', [snd kd']) :: fg). split.
+      * constructor; [|exact F]. right. exists y, kd'. auto.
+      * rewrite gkids_cons. cbn [map app]. destruct kd' as [f' top]. cbn [fst snd].
+        apply Permutation_sym. apply Permutation_cons_app. apply Permutation_sym. exact P.
+Qed.
+
+Lemma generic_phase hid p cur ks1 s :
+  Permutation ks1 (gkids cur) ->
+  Forall (fun g => (forall y, In y (snd g) -> adjacent p (fst g, y) = true) \/
+                   exists y, g = (None, [y]) /\ adjacent p (None, y) = false) cur ->
+  exists fg ks2 s', generic_pass hid p ks1 s = Ok (ks2, s') /\ Forall2 (g_rel p) cur fg /\ Permutation ks2 (gkids fg) /\
+    s_oid s <= s_oid s' /\ s_dup s' = s_dup s /\ s_dups s' = s_dups s.
+Proof.
+  intros HP Hshape.
+  destruct (generic_pass_spec hid p ks1 s) as (lifted & s' & E & G & R).
+  pose proof (filter_perm (fun kd => negb (adjacent p kd)) _ _ HP) as Pna.
+  destruct (Forall2_perm_l _ _ _ _ G Pna) as (lifted' & PL & G').
+  destruct (generic_assemble p cur lifted' Hshape G') as (fg & F & P).
+  exists fg. eexists _, s'. split; [exact E|]. split; [exact F|]. split; [|exact R].
+  eapply Permutation_trans; [|exact P]. apply Permutation_app; [apply filter_perm; exact HP|exact PL].
+Qed.
+
+(* ---------- where the members of the pending groups live ---------- *)
+Lemma Forall2_rep_clade t genes X cs ys :
+  Forall (fun c => WFh t genes c /\ xtax c = X) cs -> Forall2 (rep t) cs ys -> Forall (fun y => in_clade X (htax y)) ys.
+Proof.
+  intros Hwf HF. induction HF as [|c y cr yr Hr HF IH]; constructor.
+  - inversion Hwf as [|? ? [Hw Hx] _]; subst. eapply rep_clade; eauto.
+  - apply IH. inversion Hwf; auto.
+Qed.
+
+Lemma sole_facts t genes c a cs :
+  WFh t genes c -> below c (XH a [cs]) ->
+  in_clade (xtax c) a /\ valid t a = true /\ is_leaf t a = false /\
+  Forall (fun ci => WFh t genes ci /\ xtax ci = lin_tax cs) cs /\ exists b', lin_tax cs = b' :: a.
+Proof.
+  intros Hwf Hb. destruct (below_WF t genes c _ Hb Hwf) as (Hw' & s & Hs). cbn [xtax] in Hs.
+  split; [exists s; exact Hs|]. pose proof Hw' as Hw0. apply WFh_inv in Hw0 as (Hv & Hl & _ & _ & Hmem).
+  split; [exact Hv|]. split; [exact Hl|]. inversion Hmem as [|? ? [Hne Hm] _]; subst.
+  split.
+  - rewrite Forall_forall in *. intros ci Hci. destruct (Hm ci Hci) as (Hwi & _ & _ & Hli). auto.
+  - destruct cs as [|c0 cr]; [contradiction|]. inversion Hm as [|? ? (_ & Hn & Ht & _) _]; subst. simpl.
+    destruct (xtax c0) as [|b' q]; [contradiction|]. simpl in Ht. subst q. eauto.
+Qed.
+
+Lemma pend_clade t genes s p l g :
+  lin_ok t genes p l -> pend t s p l g ->
+  snd g <> [] /\ Forall (fun y => in_clade (lin_tax l) (htax y)) (snd g).
+Proof.
+  intros [Hne Hok] Hp. destruct Hp as [c y Hr|cs k ys H2 HF Hm Hl|c a cs k ys Hb H2 HF Hm Hl]; cbn [snd].
+  - split; [discriminate|]. inversion Hok as [|? ? (Hw & b & Hx & _) _]; subst. constructor; [|constructor].
+    simpl. eapply rep_clade; eauto.
+  - split; [intros ->; apply Forall2_length' in HF; destruct cs as [|? [|? ?]]; simpl in *; try lia; discriminate|].
+    eapply Forall2_rep_clade; [|exact HF]. rewrite Forall_forall in *. intros ci Hci. destruct (Hok ci Hci) as (Hw & b & Hx & Hlt). split; [exact Hw|congruence].
+  - split; [intros ->; apply Forall2_length' in HF; destruct cs as [|? [|? ?]]; simpl in *; try lia; discriminate|].
+    inversion Hok as [|? ? (Hw & b & Hx & _) _]; subst.
+    destruct (sole_facts t genes c a cs Hw Hb) as (Hca & _ & _ & Hcs & b' & Hb').
+    pose proof (Forall2_rep_clade t genes (lin_tax cs) cs ys Hcs HF) as Hcl.
+    eapply Forall_impl; [|exact Hcl]. intros y Hy. simpl.
+    eapply in_clade_trans; [exact Hca|]. eapply in_clade_trans; [|exact Hy]. exists [b']. rewrite Hb'. reflexivity.
+Qed.
+
+(* ---------- the level the group is placed at ---------- *)
+Lemma lift_level_ge p ks : forall s,
+  (forall k c, In (Some k, c) ks -> exists a, mrca_is s k a /\ depth p <= depth a) -> lift_level ks p s = Ok (p, s).
+Proof.
+  induction ks as [|[[k|] c] r IH]; intros s H; simpl; [reflexivity| |].
+  - unfold bind, dup_mrca. destruct (H k c (or_introl eq_refl)) as (a & (d & Hd & Hm) & Hle). rewrite Hd, Hm.
+    assert (E : Nat.ltb (depth a) (depth p) = false) by (apply Nat.ltb_ge; exact Hle). rewrite E.
+    apply IH. intros k' c' Hin. apply (H k' c'). right. exact Hin.
+  - apply IH. intros k' c' Hin. apply (H k' c'). right. exact Hin.
+Qed.
+
+Lemma in_clade_neq b p q : in_clade (b :: p) q -> q <> p.
+Proof. intros [s ->] E. apply (f_equal (@List.length nat)) in E. rewrite app_length in E. simpl in E. lia. Qed.
+
+Lemma taxa_gkids_cons f ys gs :
+  map (fun kd : kid => htax (snd kd)) (gkids ((f, ys) :: gs)) = map htax ys ++ map (fun kd : kid => htax (snd kd)) (gkids gs).
+Proof. rewrite gkids_cons, map_app, map_map. reflexivity. Qed.
+
+Lemma close_level t genes p lins gs s :
+  lins <> [] -> NoDup (map lin_tax lins) -> Forall (lin_ok t genes p) lins ->
+  Forall2 (pend t s p) lins gs -> (single lins = true -> Forall2 exact_kid lins gs) ->
+  exists x more lvl0, dedup_tax (map (fun kd : kid => htax (snd kd)) (gkids gs)) = x :: more /\
+    (more = [] -> exists l, lins = [l] /\ x = lin_tax l) /\
+    (match more with [] => up_or_fail x | _ => ret (fold_left lcs more x) end) s = Ok (lvl0, s) /\
+    lift_level (gkids gs) lvl0 s = Ok (p, s).
+Proof.
+  intros Hne Hnd Hok HF Hex.
+  destruct lins as [|l1 [|l2 lr]]; [contradiction| |].
+  - (* one lineage *)
+    inversion HF as [|? g ? gr Hp HF']; subst. inversion HF'; subst. inversion Hok as [|? ? Hok1 _]; subst.
+    specialize (Hex eq_refl). inversion Hex as [|? ? ? ? Hex1 _]; subst.
+    destruct Hp as [c y Hr|cs k ys H2 HFr Hm Hl|c a cs k ys Hb H2 HFr Hm Hl].
+    + destruct Hex1 as (y' & Ey & Hy). inversion Ey; subst y'.
+      destruct Hok1 as [_ Hc]. inversion Hc as [|? ? (_ & b & Hx & _) _]; subst.
+      exists (xtax c), [], p. unfold gkids. simpl. rewrite Hy. split; [reflexivity|]. split; [intros _; exists [c]; auto|].
+      split; [unfold up_or_fail; rewrite Hx; reflexivity|reflexivity].
+    + destruct Hok1 as [Hcne Hc].
+      assert (HX : exists b, lin_tax cs = b :: p).
+      { destruct cs as [|c0 cr]; [contradiction|]. inversion Hc as [|? ? (_ & b & _ & Hlt) _]; subst. eauto. }
+      destruct HX as [b HX].
+      assert (Hys : ys <> []) by (intros ->; apply Forall2_length' in HFr; destruct cs as [|? [|? ?]]; simpl in *; try lia; discriminate).
+      assert (Htaxa : map (fun kd : kid => htax (snd kd)) (gkids [(Some k, ys)]) = map htax ys).
+      { rewrite taxa_gkids_cons. unfold gkids. simpl. apply app_nil_r. }
+      rewrite Htaxa.
+      assert (Hall_k : forall k' c', In (Some k', c') (gkids [(Some k, ys)]) -> mrca_is s k' p).
+      { intros k' c' Hin. apply gkids_flags_in in Hin. destruct Hin as [<-|[]]. exact Hm. }
+      destruct Hl as [Hall|(x & r & Hdd & Hr & Hf)].
+      * exists (lin_tax cs), [], p. split; [apply dedup_tax_single; [destruct ys; [contradiction|discriminate]|exact Hall]|].
+        split; [intros _; exists cs; auto|]. split; [unfold up_or_fail; rewrite HX; reflexivity|].
+        apply lift_level_id. exact Hall_k.
+      * exists x, r, (lin_tax cs). split; [exact Hdd|]. split; [intros ->; contradiction|].
+        split; [destruct r; [contradiction|]; unfold ret; rewrite Hf; reflexivity|].
+        destruct ys as [|y0 yr]; [contradiction|]. unfold gkids. cbn [flat_map map app fst snd lift_level].
+        destruct Hm as (d & Hd & Hmd). unfold bind at 1. unfold dup_mrca. rewrite Hd, Hmd.
+        assert (E : Nat.ltb (depth p) (depth (lin_tax cs)) = true) by (rewrite HX; apply Nat.ltb_lt; simpl; lia). rewrite E.
+        apply lift_level_id. intros k' c' Hin. apply (Hall_k k' c'). unfold gkids. cbn [flat_map map app fst snd]. right. exact Hin.
+    + destruct Hex1 as (y' & Ey & _). discriminate.
+  - (* at least two lineages: two members in different child clades of p *)
+    assert (Hcl : Forall2 (fun l g => snd g <> [] /\ Forall (fun y => in_clade (lin_tax l) (htax y)) (snd g)) (l1 :: l2 :: lr) gs).
+    { clear - Hok HF. revert Hok. induction HF as [|l g ls gs' Hp HF IH]; intros Hok; constructor.
+      - inversion Hok; subst. eapply pend_clade; eauto.
+      - apply IH. inversion Hok; auto. }
+    assert (Hb : Forall (fun l => exists b, lin_tax l = b :: p) (l1 :: l2 :: lr)).
+    { eapply Forall_impl; [|exact Hok]. intros l [Hlne Hc]. destruct l as [|c0 cr]; [contradiction|].
+      inversion Hc as [|? ? (_ & b & _ & Hlt) _]; subst. eauto. }
+    inversion Hcl as [|? g1 ? gs1 [Hn1 Hc1] Hcl1]; subst. inversion Hcl1 as [|? g2 ? gs2 [Hn2 Hc2] Hcl2]; subst.
+    inversion Hb as [|? ? [b1 Hb1] Hb']; subst. inversion Hb' as [|? ? [b2 Hb2] Hb'']; subst.
+    assert (Hb12 : b1 <> b2).
+    { intros ->. simpl in Hnd. inversion Hnd as [|? ? Hin _]; subst. apply Hin. left. congruence. }
+    destruct g1 as [f1 ys1], g2 as [f2 ys2]. simpl in Hn1, Hn2, Hc1, Hc2.
+    destruct ys1 as [|y1 yr1]; [contradiction|]. destruct ys2 as [|y2 yr2]; [contradiction|].
+    inversion Hc1 as [|? ? [s1 Hy1] _]; subst. inversion Hc2 as [|? ? [s2 Hy2] _]; subst. rewrite Hb1 in Hy1. rewrite Hb2 in Hy2.
+    set (taxa := map (fun kd : kid => htax (snd kd)) (gkids ((f1, y1 :: yr1) :: (f2, y2 :: yr2) :: gs2))).
+    assert (Hin1 : In (s1 ++ b1 :: p) taxa).
+    { unfold taxa. rewrite taxa_gkids_cons. simpl. left. exact Hy1. }
+    assert (Hin2 : In (s2 ++ b2 :: p) taxa).
+    { unfold taxa. rewrite !taxa_gkids_cons. apply in_or_app. right. simpl. left. exact Hy2. }
+    assert (Hallp : Forall (in_clade p) taxa).
+    { unfold taxa. apply Forall_forall. intros q Hq. apply in_map_iff in Hq as (kd & <- & Hkd).
+      apply gkids_in_group in Hkd as (g & Hg & _ & Hy).
+      destruct (Forall2_in_r _ _ _ _ Hcl Hg) as (l & Hl & (_ & Hc)). rewrite Forall_forall in Hc. specialize (Hc _ Hy).
+      rewrite Forall_forall in Hb. destruct (Hb l Hl) as [b Hbl]. rewrite Hbl in Hc.
+      eapply in_clade_trans; [|exact Hc]. exists [b]. reflexivity. }
+    assert (Hd : Forall (in_clade p) (dedup_tax taxa)).
+    { apply Forall_forall. intros q Hq. apply (proj1 (dedup_tax_in _ _)) in Hq. rewrite Forall_forall in Hallp. auto. }
+    destruct (dedup_tax taxa) as [|x more] eqn:Ed.
+    { exfalso. assert (In (s1 ++ b1 :: p) (dedup_tax taxa)) by (apply dedup_tax_in; exact Hin1). rewrite Ed in H. contradiction. }
+    assert (Hf : fold_left lcs more x = p).
+    { eapply (fold_lcs_two_clades p more x s1 b1 s2 b2); auto.
+      - rewrite <- Ed. apply dedup_tax_in. exact Hin1.
+      - rewrite <- Ed. apply dedup_tax_in. exact Hin2. }
+    assert (Hmore : more <> []).
+    { intros ->. simpl in Hf. subst x.
+      assert (Hx : In p taxa) by (apply dedup_tax_in; rewrite Ed; left; reflexivity).
+      unfold taxa in Hx. apply in_map_iff in Hx as (kd & Ekd & Hkd). apply gkids_in_group in Hkd as (g & Hg & _ & Hy).
+      destruct (Forall2_in_r _ _ _ _ Hcl Hg) as (l & Hl & (_ & Hc)). rewrite Forall_forall in Hc. specialize (Hc _ Hy).
+      rewrite Forall_forall in Hb. destruct (Hb l Hl) as [b Hbl]. rewrite Hbl in Hc. apply in_clade_neq in Hc. congruence. }
+    exists x, more, p. split; [reflexivity|]. split; [intros ->; contradiction|].
+    split; [destruct more; [contradiction|]; unfold ret; rewrite Hf; reflexivity|].
+    apply lift_level_ge. intros k c Hin. apply gkids_in_group in Hin as (g & Hg & Ef & Hy). simpl in Ef, Hy.
+    destruct (Forall2_in_r _ _ _ _ HF Hg) as (l & Hl & Hp).
+    rewrite Forall_forall in Hok. pose proof (Hok l Hl) as [Hlne Hlc].
+    destruct Hp as [c0 y Hr|cs k0 ys H2 HFr Hm Hlv|c0 a cs k0 ys Hbl H2 HFr Hm Hlv]; simpl in Ef; try discriminate; inversion Ef; subst k0.
+    + exists p. split; [exact Hm|lia].
+    + exists a. split; [exact Hm|]. inversion Hlc as [|? ? (Hw & b & Hx & _) _]; subst.
+      destruct (sole_facts t genes c0 a cs Hw Hbl) as ([sa Hsa] & _). rewrite Hsa, Hx. unfold depth. rewrite app_length. simpl. lia.
+Qed.
+
+(* ---------- what the groups have become, lineage by lineage ---------- *)
+Definition fin (t : stree) (c : hist) (top : hog) : Prop :=
+  matches c top /\ htax top = xtax c /\ wf_node t top = true.
+
+Lemma liftrel_fin t genes c y q b top :
+  WFh t genes c -> rep t c y -> xtax c = b :: q -> liftrel q y top -> fin t c top.
+Proof.
+  intros Hwf Hr Hx (o & i & ->). exact (chain_completes t genes i c y q b o Hwf Hr Hx).
+Qed.
+
+Lemma Forall2_compose {A B C} (R1 : A -> B -> Prop) (R2 : B -> C -> Prop) (R3 : A -> C -> Prop) l1 l2 l3 :
+  Forall2 R1 l1 l2 -> Forall2 R2 l2 l3 -> (forall a b c, In a l1 -> R1 a b -> R2 b c -> R3 a c) -> Forall2 R3 l1 l3.
+Proof.
+  intros H1. revert l3. induction H1 as [|a b r1 r2 Hab H1 IH]; intros l3 H2 H; inversion H2; subst; constructor.
+  - eapply H; eauto. left. reflexivity.
+  - apply IH; auto. intros a' b' c' Hin. apply H. right. exact Hin.
+Qed.
+
+Lemma mrca_is_fun s k a a' : mrca_is s k a -> mrca_is s k a' -> a = a'.
+Proof. intros (d & Hd & Hm) (d' & Hd' & Hm'). congruence. Qed.
+
+Lemma relm_of_fin t l tops : Forall2 (fin t) l tops -> relm l tops.
+Proof. induction 1 as [|c top r r' (Hm & _) HF IH]; simpl; auto. Qed.
+
+Lemma gl_ok_of_fin t l f tops :
+  l <> [] -> Forall (fun c => xtax c = lin_tax l) l -> Forall2 (fin t) l tops ->
+  (match l with [_] => f = None | _ => f <> None end) -> gl_ok t l (f, tops).
+Proof.
+  intros Hne Hx HF Hf. pose proof (Forall2_length' _ _ _ HF) as Hlen. unfold gl_ok. cbn [fst snd]. split; [|split].
+  - intros ->. destruct l; [contradiction|discriminate].
+  - clear Hf Hlen Hne. revert Hx. generalize (lin_tax l) as X. intros X Hx.
+    induction HF as [|c top r r' (_ & Ht & Hw) HF IH]; constructor.
+    + inversion Hx; subst. split; [congruence|exact Hw].
+    + apply IH. inversion Hx; auto.
+  - destruct l as [|c1 [|c2 r]]; [contradiction| |]; simpl in Hlen; split; auto; lia.
+Qed.
+
+(* the intermediate HOG built for a level that was spelt as its only duplication *)
+Lemma sole_node t a cs k tops lifted mo m b' :
+  valid t a = true -> is_leaf t a = false -> 2 <= List.length cs -> lin_tax cs = b' :: a ->
+  Forall (fun c => xtax c = lin_tax cs) cs -> Forall2 (fin t) cs tops ->
+  Permutation lifted (map (pair (Some k)) tops) ->
+  matches (XH a [cs]) (HHog mo a m lifted) /\ wf_node t (HHog mo a m lifted) = true.
+Proof.
+  intros Hv Hl H2 Hb Hx HF HP.
+  assert (Hcne : cs <> []) by (intros ->; simpl in H2; lia).
+  assert (Hshape : match cs with [_] => Some k = None | _ => Some k <> None end).
+  { destruct cs as [|c1 [|c2 r]]; simpl in H2; try lia. discriminate. }
+  pose proof (gl_ok_of_fin t cs (Some k) tops Hcne Hx HF Hshape) as Hgl.
+  assert (Hk : gkids [(Some k, tops)] = map (pair (Some k)) tops) by (unfold gkids; simpl; apply app_nil_r).
+  split.
+  - cbn [matches]. split; [reflexivity|]. exists [(Some k, tops)].
+    split; [simpl; rewrite app_nil_r; exact HP|]. split; [reflexivity|]. split; [simpl; constructor; [intros []|constructor]|].
+    split; [exact Hshape|]. split; [apply (relm_of_fin t); exact HF|exact I].
+  - eapply (wf_closed t mo a m [cs] [(Some k, tops)] lifted); auto.
+    + simpl. constructor; [intros []|constructor].
+    + unfold gflags. simpl. constructor; [intros []|constructor].
+    + rewrite Hk. apply Forall_forall. intros kd Hkd. apply in_map_iff in Hkd as (top & <- & Htop).
+      destruct Hgl as (_ & Hn & _). rewrite Forall_forall in Hn. destruct (Hn top Htop) as [Ht _].
+      unfold kid_child_of. simpl. rewrite Ht, Hb. exists b'. reflexivity.
+    + rewrite Hk. destruct tops; [apply Forall2_length' in HF; destruct cs; simpl in *; try lia; discriminate|discriminate].
+    + rewrite Hk. exact HP.
+Qed.
+
+Lemma after_rehome t genes s p l g g' :
+  lin_ok t genes p l -> pend t s p l g -> r_rel p s g g' ->
+  (exists c y', l = [c] /\ g' = (None, [y']) /\ rep t c y') \/
+  (2 <= List.length l /\ exists k tops, g' = (Some k, tops) /\ Forall2 (fin t) l tops).
+Proof.
+  intros [Hne Hok] Hp Hr.
+  destruct Hp as [c y Hry|cs k ys H2 HF Hm Hl|c a cs k ys Hb H2 HF Hm Hl].
+  - inversion Hr; subst. left. exists c, y. auto.
+  - right. split; [exact H2|]. inversion Hr as [|? ? tops Hm' HL|? ? a' mo m lifted tops Hm' Ha HL HP]; subst.
+    + exists k, tops. split; [reflexivity|]. eapply Forall2_compose; [exact HF|exact HL|].
+      intros c y top Hc Hry Hlr. rewrite Forall_forall in Hok. destruct (Hok c Hc) as (Hw & b & Hx & _).
+      eapply liftrel_fin; eauto.
+    + exfalso. apply Ha. eapply mrca_is_fun; eauto.
+  - left. inversion Hok as [|? ? (Hw & b & Hx & _) _]; subst.
+    destruct (sole_facts t genes c a cs Hw Hb) as (Hca & Hv & Hlf & Hcs & b' & Hb').
+    inversion Hr as [|? ? tops Hm' HL|? ? a' mo m lifted tops Hm' Ha HL HP]; subst.
+    + exfalso. assert (a = p) by (eapply mrca_is_fun; eauto). subst a. rewrite Hx in Hca. apply in_clade_neq in Hca. congruence.
+    + assert (a' = a) by (eapply mrca_is_fun; eauto). subst a'.
+      assert (HFin : Forall2 (fin t) cs tops).
+      { eapply Forall2_compose; [exact HF|exact HL|]. intros ci y top Hci Hry Hlr. rewrite Forall_forall in Hcs.
+        destruct (Hcs ci Hci) as [Hwi Hxi]. eapply liftrel_fin; eauto. rewrite Hxi. exact Hb'. }
+      destruct (sole_node t a cs k tops lifted mo m b' Hv Hlf H2 Hb') as [Hmt Hwf]; auto.
+      { eapply Forall_impl; [|exact Hcs]. intros ci [_ Hxi]. exact Hxi. }
+      exists c, (HHog mo a m lifted). split; [reflexivity|]. split; [reflexivity|].
+      exists (XH a [cs]). split; [exact Hb|]. split; [exact Hmt|]. split; [reflexivity|exact Hwf].
+Qed.
+
+Definition final_ok (t : stree) (l : list hist) (g : option nat * list hog) : Prop :=
+  (match l with [_] => fst g = None | _ => fst g <> None end) /\ Forall2 (fin t) l (snd g).
+
+Lemma adjacent_child p f y b : htax y = b :: p -> adjacent p (f, y) = true.
+Proof. intros H. unfold adjacent, depth. cbn [snd]. rewrite H. cbn [List.length]. apply Nat.eqb_refl. Qed.
+
+Lemma adjacent_clade p f y b : in_clade (b :: p) (htax y) -> adjacent p (f, y) = true -> htax y = b :: p.
+Proof.
+  intros [s Hs] Ha. unfold adjacent, depth in Ha. cbn [snd] in Ha. rewrite Hs in Ha. apply Nat.eqb_eq in Ha.
+  rewrite app_length in Ha. cbn [List.length] in Ha. destruct s; [exact Hs|cbn [List.length] in Ha; lia].
+Qed.
+
+Lemma after_generic t genes p l g' g'' :
+  lin_ok t genes p l ->
+  ((exists c y', l = [c] /\ g' = (None, [y']) /\ rep t c y') \/
+   (2 <= List.length l /\ exists k tops, g' = (Some k, tops) /\ Forall2 (fin t) l tops)) ->
+  g_rel p g' g'' -> final_ok t l g''.
+Proof.
+  intros [Hne Hok] Hg' Hrel. destruct Hg' as [(c & y' & -> & -> & Hry)|(H2 & k & tops & -> & HF)].
+  - inversion Hok as [|? ? (Hw & b & Hx & _) _]; subst.
+    destruct Hrel as [[Hadj ->]|(y & kd' & Ey & Hna & (o & i & Ekd) & ->)].
+    + split; [reflexivity|]. cbn [snd]. constructor; [|constructor].
+      specialize (Hadj y' (or_introl eq_refl)). cbn [fst] in Hadj.
+      assert (Hy : htax y' = b :: p).
+      { eapply adjacent_clade; [|exact Hadj]. rewrite <- Hx. eapply rep_clade; eauto. }
+      pose proof (chain_completes t genes None c y' p b 0 Hw Hry Hx) as Hc. cbv zeta in Hc.
+      rewrite Hy, path_up_child in Hc. exact Hc.
+    + inversion Ey; subst y. subst kd'. unfold gen_out. cbn [fst snd].
+      pose proof (chain_completes t genes i c y' p b o Hw Hry Hx) as Hc. cbv zeta in Hc.
+      destruct (path_up (htax y') p) as [|tx r] eqn:Ep; cbn [fst snd]; (split; [reflexivity|constructor; [exact Hc|constructor]]).
+  - destruct Hrel as [[_ ->]|(y & kd' & Ey & _)]; [|discriminate].
+    split; [|exact HF]. cbn [fst]. destruct l as [|c1 [|c2 r]]; simpl in H2; try lia. discriminate.
+Qed.
+
+(* ---------- closing a spelt group ---------- *)
+Lemma pend_same_dups t s s' p l g : s_dups s' = s_dups s -> pend t s p l g -> pend t s' p l g.
+Proof.
+  intros E H. pose proof (mrca_eq_same_dups s s' E) as Q.
+  destruct H as [c y Hr|cs k ys H2 HF Hm Hl|c a cs k ys Hb H2 HF Hm Hl].
+  - constructor; auto.
+  - constructor; auto. apply Q. exact Hm.
+  - eapply pend_sole; eauto. apply Q. exact Hm.
+Qed.
+
+Lemma g_rel_flag p g g' : g_rel p g g' -> fst g' = fst g.
+Proof.
+  intros [[_ ->]|(y & kd' & -> & _ & (o & i & ->) & ->)]; [reflexivity|].
+  unfold gen_out. cbn [fst snd]. destruct (path_up (htax y) p); reflexivity.
+Qed.
+
+Lemma gflags_g_rel p cur fg : Forall2 (g_rel p) cur fg -> gflags fg = gflags cur.
+Proof.
+  induction 1 as [|g g' r r' Hg HF IH]; [reflexivity|]. unfold gflags in *. simpl. rewrite IH, (g_rel_flag p g g' Hg). reflexivity.
+Qed.
+
+Lemma lin_ok_of_WF t genes p lins : WFh t genes (XH p lins) -> Forall (lin_ok t genes p) lins.
+Proof.
+  intros Hwf. apply WFh_inv in Hwf as (_ & _ & _ & _ & Hmem). eapply Forall_impl; [|exact Hmem].
+  intros l [Hne Hm]. split; [exact Hne|]. eapply Forall_impl; [|exact Hm]. intros c (Hw & Hn & Ht & Hl).
+  split; [exact Hw|]. destruct (xtax c) as [|b q] eqn:E; [contradiction|]. simpl in Ht. subst q. exists b. split; [reflexivity|]. now rewrite <- Hl.
+Qed.
+
+Lemma rel_of_final t lins fg : Forall2 (final_ok t) lins fg -> rel lins fg.
+Proof.
+  induction 1 as [|l [f tops] lr gr [Hf HF] _ IH]; simpl; [exact I|]. simpl in Hf, HF.
+  split; [exact Hf|]. split; [apply (relm_of_fin t); exact HF|exact IH].
+Qed.
+
+Lemma close_spelt t genes top id og p lins inner gs s :
+  WFh t genes (XH p lins) ->
+  f_kids inner = gkids gs -> Forall2 (pend t s p) lins gs -> (single lins = true -> Forall2 exact_kid lins gs) ->
+  (match assoc_last "TaxRange" (f_props inner) with
+   | None => True
+   | Some v => forall l, lins = [l] -> name_of t (lin_tax l) <> Some v
+   end) ->
+  NoDup (gflags gs) -> dups_dom s ->
+  exists x s', close_og t top id og inner s = Ok (Node x, s') /\ matches (XH p lins) x /\ htax x = p /\ wf_node t x = true /\
+    s_oid s <= s_oid s' /\ s_dup s' = s_dup s /\ dups_dom s' /\
+    (forall k, ~ In k (gflags gs) -> dup_lookup k (s_dups s') = dup_lookup k (s_dups s)).
+Proof.
+  intros Hwf Hk HF Hex Hlab Hnd Hdom.
+  pose proof (lin_ok_of_WF t genes p lins Hwf) as Hok.
+  pose proof Hwf as Hwf0. apply WFh_inv in Hwf0 as (Hv & Hl & Hne & Hndl & _).
+  destruct (close_level t genes p lins gs s Hne Hndl Hok HF Hex) as (x & more & lvl0 & Hd & Hmore & Hlvl0 & Hlift).
+  unfold close_og. cbv zeta. unfold kid in *. rewrite Hk, Hd.
+  assert (Hcol : (match more, assoc_last "TaxRange" (f_props inner), name_of t x with
+                  | [], Some v, Some n => String.eqb v n
+                  | _, _, _ => false
+                  end) = false).
+  { destruct more as [|m0 mr]; [|reflexivity]. destruct (Hmore eq_refl) as (l & -> & ->).
+    destruct (assoc_last "TaxRange" (f_props inner)) as [v|]; [|reflexivity].
+    destruct (name_of t (lin_tax l)) as [n|] eqn:En; [|reflexivity].
+    destruct (String.eqb v n) eqn:E; [|reflexivity]. apply String.eqb_eq in E. subst n. exfalso. exact (Hlab l eq_refl En). }
+  rewrite Hcol. unfold bind at 1. rewrite Hlvl0. unfold bind at 1. rewrite Hlift.
+  destruct (ensure_spec p s) as (s1 & E1 & O1 & D1 & DS1). unfold bind at 1. rewrite E1.
+  destruct (fresh_oid_spec s1) as (s2 & E2 & O2 & D2 & DS2). unfold bind at 1. rewrite E2.
+  destruct (register_spec p (RHog (s_oid s1)) s2) as (s3 & E3 & O3 & D3 & DS3). unfold bind at 1. rewrite E3.
+  assert (Hdups3 : s_dups s3 = s_dups s) by (rewrite DS3, DS2, DS1; reflexivity).
+  assert (Hdom3 : dups_dom s3) by (unfold dups_dom; rewrite D3, D2, D1, Hdups3; exact Hdom).
+  assert (HF3 : Forall2 (pend t s3 p) lins gs).
+  { clear - HF Hdups3. induction HF; constructor; auto. eapply pend_same_dups; eauto. }
+  (* the pending groups are not empty; the duplication keys are their flags *)
+  assert (Hcl : Forall2 (fun l g => snd g <> [] /\ Forall (fun y => in_clade (lin_tax l) (htax y)) (snd g)) lins gs).
+  { clear - Hok HF. revert Hok. induction HF as [|l g ls gs' Hp HF IH]; intros Hok; constructor.
+    - inversion Hok; subst. eapply pend_clade; eauto.
+    - apply IH. inversion Hok; auto. }
+  assert (Hgne : Forall (fun g : option nat * list hog => snd g <> []) gs).
+  { clear - Hcl. induction Hcl as [|l g ls gs' [Hn _] _ IH]; constructor; auto. }
+  rewrite (dup_keys_gkids gs [] Hgne Hnd) by (intros k _ []).
+  set (meta := {| m_id := match id with Some i => Some i | None => og end; m_og := og;
+                  m_props := f_props inner; m_scores := f_scores inner; m_synth := false |}).
+  assert (Hmr : forall k, In k (gflags gs) -> exists a, mrca_is s3 k a).
+  { intros k Hin. clear - HF3 Hin. induction HF3 as [|l g ls gs' Hp HF IH]; [contradiction|].
+    change (g :: gs') with ([g] ++ gs') in Hin. rewrite gflags_app in Hin. apply in_app_or in Hin as [Hin|Hin]; [|auto].
+    destruct Hp as [c y Hr|cs k0 ys H2 HFr Hm Hlv|c a cs k0 ys Hb H2 HFr Hm Hlv]; unfold gflags in Hin; simpl in Hin;
+      try contradiction; destruct Hin as [<-|[]]; eauto. }
+  destruct (rehome_phase (hog_id_of meta) (s_oid s1) p gs [] (gkids gs) s3 (Permutation_refl _) Hnd)
+    as (cur & ks1 & s4 & E4 & P4 & R4 & I4 & N4 & O4 & D4 & Hdom4 & Q4 & U4); auto.
+  unfold kid in *. unfold bind at 1. rewrite E4. simpl in P4.
+  (* after re-homing: lone unflagged members, or the lifted copies of the group's own duplications *)
+  assert (HA : Forall2 (fun l g' =>
+                 (exists c y', l = [c] /\ g' = (None, [y']) /\ rep t c y') \/
+                 (2 <= List.length l /\ exists k tops, g' = (Some k, tops) /\ Forall2 (fin t) l tops)) lins cur).
+  { eapply Forall2_compose; [exact HF3|exact R4|]. intros l g g' Hl' Hp Hr. rewrite Forall_forall in Hok.
+    eapply after_rehome; eauto. }
+  assert (Hshape : Forall (fun g => (forall y, In y (snd g) -> adjacent p (fst g, y) = true) \/
+                                    exists y, g = (None, [y]) /\ adjacent p (None, y) = false) cur).
+  { clear - HA Hok. revert Hok. induction HA as [|l g' ls gs' Hg HA IH]; intros Hok; constructor.
+    - inversion Hok as [|? ? [Hlne Hlc] _]; subst. destruct Hg as [(c & y' & -> & -> & Hr)|(H2 & k & tops & -> & HFin)].
+      + destruct (adjacent p (None, y')) eqn:E.
+        * left. intros y [<-|[]]. exact E.
+        * right. exists y'. auto.
+      + left. cbn [fst snd]. intros y Hy.
+        assert (Hty : exists c, In c l /\ htax y = xtax c).
+        { clear - HFin Hy. induction HFin as [|c top r r' (_ & Ht & _) HFin IH]; [contradiction|].
+          destruct Hy as [<-|Hy]; [exists c; split; [left; reflexivity|exact Ht]|].
+          destruct (IH Hy) as (c' & Hc' & E). exists c'. split; [right; exact Hc'|exact E]. }
+        destruct Hty as (c & Hc & Ety). rewrite Forall_forall in Hlc. destruct (Hlc c Hc) as (_ & b & Hx & _).
+        eapply adjacent_child. rewrite Ety. exact Hx.
+    - apply IH. inversion Hok; auto. }
+  destruct (generic_phase (hog_id_of meta) p cur ks1 s4 P4 Hshape) as (fg & ks2 & s5 & E5 & G5 & P5 & O5 & D5 & DS5).
+  unfold kid in *. unfold bind at 1. rewrite E5.
+  assert (HFinal : Forall2 (final_ok t) lins fg).
+  { eapply Forall2_compose; [exact HA|exact G5|]. intros l g' g'' Hl' Hg' Hg''. rewrite Forall_forall in Hok.
+    eapply (after_generic t genes p l g' g''); [apply Hok; exact Hl'|exact Hg'|exact Hg'']. }
+  assert (HGL : Forall2 (gl_ok t) lins fg).
+  { clear - HFinal Hok. revert Hok. induction HFinal as [|l [f tops] ls gs' [Hf HFin] _ IH]; intros Hok; constructor.
+    - inversion Hok as [|? ? [Hlne Hlc] _]; subst. simpl in Hf, HFin. apply gl_ok_of_fin; auto.
+      eapply Forall_impl; [|exact Hlc]. intros c (_ & b & Hx & Hlt). congruence.
+    - apply IH. inversion Hok; auto. }
+  assert (Hfgflags : NoDup (gflags fg)) by (rewrite (gflags_g_rel p cur fg G5); exact N4).
+  assert (Htax : Forall (fun l => exists a, lin_tax l = a :: p) lins).
+  { eapply Forall_impl; [|exact Hok]. intros l [Hlne Hlc]. destruct l as [|c0 cr]; [contradiction|].
+    inversion Hlc as [|? ? (_ & b & _ & Hlt) _]; subst. eauto. }
+  assert (Hall : Forall (kid_child_of p) (gkids fg)) by (eapply gkids_taxa; eauto).
+  assert (Hfgne : gkids fg <> []).
+  { destruct lins as [|l lr]; [contradiction|]. inversion HGL as [|? g ? gr Hg _]; subst.
+    destruct Hg as (Hcs & _). rewrite (surjective_pairing g), gkids_cons. destruct (snd g); [contradiction|discriminate]. }
+  eexists _, s5. split; [reflexivity|]. split; [|split; [reflexivity|split; [|split; [|split; [|split]]]]].
+  - cbn [matches]. split; [reflexivity|]. exists fg. split; [exact P5|]. split; [symmetry; eapply Forall2_length; eauto|].
+    split; [exact Hfgflags|]. apply (rel_of_final t). exact HFinal.
+  - eapply wf_closed; eauto.
+  - lia.
+  - congruence.
+  - unfold dups_dom. rewrite D5, DS5. exact Hdom4.
+  - intros k Hk'. rewrite DS5, U4 by exact Hk'. exact (f_equal (dup_lookup k) Hdups3).
+Qed.
+
+(* ====================================================================================================
+   Part 3: every spelt member, every spelt family, every spelt document.
+   ==================================================================================================== *)
+Lemma rep_step t p c y : rep t c y -> rep t (XH p [[c]]) y.
+Proof. intros (h' & Hb & R). exists h'. split; [apply below_step; exact Hb|exact R]. Qed.
+
+Lemma explicit_member t genes p lins id og body :
+  WFh t genes (XH p lins) -> Forall (Forall (Pmember t genes)) lins ->
+  sp_body t (single lins) p lins body -> label_ok t lins body ->
+  forall pg fr s, dups_dom s ->
+  exists x s', eval_item t genes (IOG id og body) pg fr s = Ok (add_kids fr [(pg, x)], s') /\
+    matches (XH p lins) x /\ htax x = p /\ wf_node t x = true /\ ext s s' /\ dups_dom s'.
+Proof.
+  intros Hwf HIH Hsp Hlab pg fr s Hdom.
+  pose proof (lin_ok_of_WF t genes p lins Hwf) as Hok.
+  destruct (body_eval t genes p (single lins) lins body Hsp HIH Hok [] empty_frame s eq_refl) as
+    (gs & inner & s1 & E1 & K1 & P1 & X1 & D1 & F1 & G1 & N1 & Ex1); [intros k []|exact Hdom|].
+  simpl in K1.
+  assert (Hlab' : match assoc_last "TaxRange" (f_props inner) with
+                  | None => True
+                  | Some v => forall l, lins = [l] -> name_of t (lin_tax l) <> Some v
+                  end).
+  { rewrite (body_props _ _ _ _ _ _ _ _ E1). exact Hlab. }
+  destruct (close_spelt t genes false id og p lins inner gs s1 Hwf K1 P1 Ex1 Hlab' N1 D1)
+    as (x & s2 & E2 & M2 & T2 & W2 & O2 & Du2 & D2 & U2).
+  exists x, s2. split; [|split; [exact M2|split; [exact T2|split; [exact W2|split; [|exact D2]]]]].
+  - cbn [eval_item]. fold (body_go t genes None). unfold bind at 1. rewrite E1. unfold bind at 1. rewrite E2. reflexivity.
+  - destruct X1 as (A1 & B1 & C1). repeat split; try lia. intros k Hk. rewrite U2; [apply C1; exact Hk|].
+    intros Hin. specialize (F1 k Hin). lia.
+Qed.
+
+Lemma eval_IOG t genes id og body pg fr s :
+  eval_item t genes (IOG id og body) pg fr s =
+  match body_go t genes None body empty_frame s with
+  | Ok (inner, s1) =>
+      match close_og t false id og inner s1 with
+      | Ok (c, s2) =>
+          Ok (match c with
+              | Node h => add_kids fr [(pg, h)]
+              | Collapsed ks => add_kids fr (match pg with Some _ => map (fun kd => (pg, snd kd)) ks | None => ks end)
+              end, s2)
+      | Err e => Err e
+      end
+  | Err e => Err e
+  end.
+Proof.
+  cbn [eval_item]. fold (body_go t genes None). unfold bind.
+  destruct (body_go t genes None body empty_frame s) as [[inner s1]|e]; [|reflexivity].
+  destruct (close_og t false id og inner s1) as [[[ks|h] s2]|e]; reflexivity.
+Qed.
+
+Lemma wrap_inner t genes g p n s : find_gene g genes = Some p ->
+  body_go t genes None [IProp "TaxRange" n; IGene g None] empty_frame s =
+  Ok ({| f_kids := [(None, HGene g p)]; f_props := [("TaxRange", n)]; f_scores := [] |}, s).
+Proof.
+  intros H. rewrite body_go_cons. cbn [eval_item]. unfold ret at 1. cbv beta iota.
+  rewrite body_go_cons. cbn [eval_item]. rewrite find_gene_fix, H. reflexivity.
+Qed.
+
+Lemma wrap_close t id og g p n s : name_of t p = Some n ->
+  close_og t false id og {| f_kids := [(None, HGene g p)]; f_props := [("TaxRange", n)]; f_scores := [] |} s =
+  Ok (Collapsed [(None, HGene g p)], s).
+Proof.
+  intros Hn. unfold close_og. cbn [f_kids f_props map snd htax dedup_tax mem_tax existsb].
+  assert (Ea : assoc_last "TaxRange" [("TaxRange", n)] = Some n) by reflexivity.
+  rewrite Ea, Hn, String.eqb_refl. reflexivity.
+Qed.
+
+Theorem spelt_evaluates t genes h : Pmember t genes h.
+Proof.
+  induction h as [g p|p lins IH] using hist_ind'; intros Hwf mp its lv Hsp.
+  - destruct Hwf as [Hf Hl].
+    inversion Hsp as [mp' g' p'|mp' g' p' n id og Hn| | |]; subst; cbn [member_claim]; intros pg fr s Hdom.
+    + exists (HGene g p), (add_kids fr [(pg, HGene g p)]), s. split; [|split; [reflexivity|split; [|split; [reflexivity|split; [apply ext_refl|exact Hdom]]]]].
+      * rewrite body_go_cons. cbn [eval_item]. rewrite find_gene_fix, Hf. reflexivity.
+      * exists (XG g p). split; [constructor|]. split; [simpl; auto|]. split; [reflexivity|exact Hl].
+    + exists (HGene g p), (add_kids fr [(pg, HGene g p)]), s. split; [|split; [reflexivity|split; [|split; [reflexivity|split; [apply ext_refl|exact Hdom]]]]].
+      * rewrite body_go_cons, eval_IOG, (wrap_inner t genes g p n s Hf), (wrap_close t id og g p n s Hn).
+        destruct pg; reflexivity.
+      * exists (XG g p). split; [constructor|]. split; [simpl; auto|]. split; [reflexivity|exact Hl].
+  - inversion Hsp as [| |mp' p' lins' id og body Hbody Hlab|mp' p' c its' lv' Hc|p' cs og body lvls H2 Hun Hlv]; subst.
+    + (* spelt out *)
+      cbn [member_claim]. intros pg fr s Hdom.
+      destruct (explicit_member t genes p lins id og body Hwf IH Hbody Hlab pg fr s Hdom) as (x & s' & E & M & T & W & X' & D').
+      exists x, (add_kids fr [(pg, x)]), s'. split; [rewrite body_go_cons, E; reflexivity|]. split; [reflexivity|].
+      split; [exists (XH p lins); split; [constructor|]; split; [exact M|]; split; [exact T|exact W]|].
+      split; [exact T|]. split; [exact X'|exact D'].
+    + (* a single-lineage level left out *)
+      inversion IH as [|? ? IHl _]; subst. inversion IHl as [|? ? IHc _]; subst.
+      destruct (WFh_member_tax t genes p [[c]] [c] c Hwf (or_introl eq_refl) (or_introl eq_refl)) as (Hwc & _).
+      pose proof (IHc Hwc mp its lv Hc) as Hclaim. destruct lv as [l|]; cbn [member_claim] in *.
+      * intros pg fr s Hdom. destruct (Hclaim pg fr s Hdom) as (y & fr' & s' & E & K & R & L & X' & D').
+        exists y, fr', s'. split; [exact E|]. split; [exact K|]. split; [apply rep_step; exact R|]. auto.
+      * intros fr s Hdom Hfl. destruct (Hclaim fr s Hdom Hfl) as (ys & a & cs & fr' & s' & E & K & B & R).
+        exists ys, a, cs, fr', s'. split; [exact E|]. split; [exact K|]. split; [apply below_step; exact B|exact R].
+    + (* a level that consists of one duplication, spelt as that duplication *)
+      cbn [member_claim]. intros fr s Hdom Hfl.
+      pose proof (lin_ok_of_WF t genes p [cs] Hwf) as Hok. inversion Hok as [|? ? [Hne Hokc] _]; subst.
+      inversion IH as [|? ? IHl _]; subst.
+      assert (HX : exists b, lin_tax cs = b :: p).
+      { destruct cs as [|c0 cr]; [contradiction|]. inversion Hokc as [|? ? (_ & b & _ & Hl) _]; subst. eauto. }
+      destruct HX as [b HX].
+      assert (Hcopy : Forall (copy_IH t genes) cs).
+      { rewrite Forall_forall in *. intros c Hc its l Hm. destruct (Hokc c Hc) as (Hw & _). apply (IHl c Hc Hw false its (Some l) Hm). }
+      assert (Hwfx : Forall (fun c => WFh t genes c /\ xtax c = lin_tax cs) cs).
+      { rewrite Forall_forall in *. intros c Hc. destruct (Hokc c Hc) as (Hw & b' & Hx & Hl). split; [exact Hw|congruence]. }
+      destruct (nest_eval t genes (lin_tax cs) b p cs body lvls og Hun Hlv Hne Hcopy Hwfx HX fr s Hdom Hfl)
+        as (ys & fr1 & s1 & E1 & K1 & R1 & Lv1 & M1 & Lt1 & X1 & D1).
+      exists ys, p, cs, fr1, s1. split; [rewrite body_go_cons, E1; reflexivity|]. split; [exact K1|].
+      split; [constructor|]. split; [exact H2|]. split; [exact R1|]. split; [rewrite Lv1; exact Hlv|]. auto.
+Qed.
+
+(* a top-level orthologGroup *)
+Theorem spelt_top_evaluates t genes h it s :
+  WFh t genes h -> spells_top t h it -> dups_dom s ->
+  exists i x s', eval_top t genes it s = Ok ((i, x), s') /\
+    matches h x /\ htax x = xtax h /\ wf_node t x = true /\ ext s s' /\ dups_dom s'.
+Proof.
+  intros Hwf (p & lins & id & og & body & -> & -> & Hbody & Hlab) Hdom.
+  assert (HIH : Forall (Forall (Pmember t genes)) lins).
+  { apply Forall_forall. intros l _. apply Forall_forall. intros c _. apply spelt_evaluates. }
+  pose proof (lin_ok_of_WF t genes p lins Hwf) as Hok.
+  destruct (body_eval t genes p (single lins) lins body Hbody HIH Hok [] empty_frame s eq_refl) as
+    (gs & inner & s1 & E1 & K1 & P1 & X1 & D1 & F1 & G1 & N1 & Ex1); [intros k []|exact Hdom|].
+  simpl in K1.
+  assert (Hlab' : match assoc_last "TaxRange" (f_props inner) with
+                  | None => True
+                  | Some v => forall l, lins = [l] -> name_of t (lin_tax l) <> Some v
+                  end).
+  { rewrite (body_props _ _ _ _ _ _ _ _ E1). exact Hlab. }
+  destruct (close_spelt t genes true id og p lins inner gs s1 Hwf K1 P1 Ex1 Hlab' N1 D1)
+    as (x & s2 & E2 & M2 & T2 & W2 & O2 & Du2 & D2 & U2).
+  eexists _, x, s2. split; [|split; [exact M2|split; [exact T2|split; [exact W2|split; [|exact D2]]]]].
+  - cbn [eval_top]. unfold eval_body. fold (body_go t genes None). unfold bind at 1. rewrite E1. unfold bind at 1. rewrite E2. reflexivity.
+  - destruct X1 as (A1 & B1 & C1). repeat split; try lia. intros k Hk. rewrite U2; [apply C1; exact Hk|].
+    intros Hin. specialize (F1 k Hin). lia.
+Qed.
+
+(* ---------- whole documents ---------- *)
+Lemma spelt_tops_evaluate t genes hs : forall items s,
+  Forall (WFh t genes) hs -> Forall2 (spells_top t) hs items -> dups_dom s ->
+  exists tops s', mapM (eval_top t genes) items s = Ok (tops, s') /\
+    Forall2 (fun h top => matches h (snd top) /\ htax (snd top) = xtax h /\ wf_node t (snd top) = true) hs tops /\ dups_dom s'.
+Proof.
+  induction hs as [|h r IH]; intros items s Hwf Hsp Hdom; inversion Hsp as [|? it ? itr Hh Hr]; subst.
+  - exists [], s. simpl. split; [reflexivity|]. split; [constructor|exact Hdom].
+  - inversion Hwf as [|? ? Hw Hwr]; subst.
+    destruct (spelt_top_evaluates t genes h it s Hw Hh Hdom) as (i & x & s1 & E1 & M1 & T1 & W1 & X1 & D1).
+    destruct (IH itr s1 Hwr Hr D1) as (tops & s2 & E2 & F2 & D2).
+    exists ((i, x) :: tops), s2. split; [|split; [constructor; auto|exact D2]].
+    cbn [mapM]. unfold bind at 1. rewrite E1. unfold bind at 1. rewrite E2. reflexivity.
+Qed.
+
+Theorem spelt_load t d hs :
+  Forall (species_sane t) (d_species d) -> NoDup (declared d) -> Forall2 (spells_top t) hs (d_groups d) ->
+  (forall genes, map fst genes = declared d ->
+     (forall g p, In (g, p) genes -> exists sp, In sp (d_species d) /\ In g (map gd_id (sp_genes sp)) /\ species_resolves t sp p) ->
+     Forall (WFh t genes) hs) ->
+  exists l, load t d = Ok l /\
+    Forall2 (fun h top => matches h (snd top) /\ htax (snd top) = xtax h /\ wf_node t (snd top) = true) hs (l_tops l).
+Proof.
+  intros Hsp Hnd Hg Hwf.
+  destruct (species_fold_ok t (d_species d) [] init_state Hsp Hnd) as (genes & s0 & E0 & D0 & DS0).
+  pose proof (species_fold_spec t _ _ _ _ _ E0) as (I1 & _ & _ & I4). simpl in I1.
+  assert (Hdom0 : dups_dom s0).
+  { intros k. rewrite DS0, D0. simpl. split; [intros H; contradiction|intros H; inversion H]. }
+  assert (HF : Forall (WFh t genes) hs).
+  { apply Hwf; [exact I1|]. intros g p Hin. apply I4 in Hin as [[]|Hin]. exact Hin. }
+  destruct (spelt_tops_evaluate t genes hs (d_groups d) s0 HF Hg Hdom0) as (tops & s1 & E1 & F1 & _).
+  exists {| l_genes := genes; l_tops := tops; l_state := s1 |}. split; [|exact F1].
+  unfold load. unfold bind at 1. rewrite E0. unfold bind at 1. rewrite E1. reflexivity.
+Qed.
+
+(* ---------- the fully explicit encoding is one of the spellings ---------- *)
+Lemma enc_group t genes p lins :
+  WFh t genes (XH p lins) ->
+  Forall (Forall (fun h => WFh t genes h -> forall mp, sp_member t mp h [enc h] (Some (xtax h)))) lins ->
+  sp_body t (single lins) p lins (map enc_lin lins) /\ label_ok t lins (map enc_lin lins).
+Proof.
+  intros Hwf IH. split.
+  - pose proof (lin_ok_of_WF t genes p lins Hwf) as Hok. generalize (single lins) as sgl. intros sgl.
+    clear Hwf. induction lins as [|l lr IHl]; [constructor|].
+    inversion IH as [|? ? IHc IHr]; subst. inversion Hok as [|? ? [Hne Hokl] Hokr]; subst.
+    specialize (IHl IHr Hokr). cbn [map].
+    destruct l as [|c1 [|c2 cr]]; [contradiction| |].
+    + inversion IHc as [|? ? Pc _]; subst. inversion Hokl as [|? ? (Hw & _) _]; subst.
+      change (enc_lin [c1] :: map enc_lin lr) with ([enc c1] ++ map enc_lin lr).
+      eapply sb_orth; [apply Pc; exact Hw|intros _; reflexivity|exact IHl].
+    + set (cs := c1 :: c2 :: cr) in *. change (enc_lin cs) with (IPG None (map enc cs)).
+      apply (sb_dup t sgl p cs lr None (map enc cs) (map xtax cs)); [simpl; lia| | |exact IHl].
+      * assert (Hwcs : Forall (WFh t genes) cs) by (eapply Forall_impl; [|exact Hokl]; intros c (Hw & _); exact Hw).
+        clear - IHc Hwcs. induction cs as [|c r IHr]; [constructor|].
+        inversion IHc as [|? ? Pc Pr]; subst. inversion Hwcs as [|? ? Hw Hr]; subst.
+        cbn [map]. change (enc c :: map enc r) with ([enc c] ++ map enc r). constructor; [apply Pc; exact Hw|apply IHr; auto].
+      * left. apply Forall_forall. intros q Hq. apply in_map_iff in Hq as (c & <- & Hc).
+        rewrite Forall_forall in Hokl. destruct (Hokl c Hc) as (_ & b & Hx & Hl). congruence.
+  - unfold label_ok.
+    assert (E : flat_map item_props (map enc_lin lins) = []).
+    { clear. induction lins as [|l lr IHl]; [reflexivity|]. cbn [map flat_map]. rewrite IHl, app_nil_r.
+      destruct l as [|c1 [|c2 cr]].
+      - reflexivity.
+      - destruct c1; reflexivity.
+      - cbn [enc_lin item_props]. clear. induction (c1 :: c2 :: cr) as [|c r IHr]; [reflexivity|]. cbn [map flat_map]. rewrite IHr, app_nil_r. destruct c; reflexivity. }
+    rewrite E. exact I.
+Qed.
+
+Lemma enc_spells t genes h : WFh t genes h -> forall mp, sp_member t mp h [enc h] (Some (xtax h)).
+Proof.
+  induction h as [g p|p lins IH] using hist_ind'; intros Hwf mp.
+  - constructor.
+  - rewrite enc_XH. cbn [xtax]. destruct (enc_group t genes p lins Hwf IH) as [Hb Hl]. apply sm_explicit; assumption.
+Qed.
+
+Lemma enc_spells_top t genes p lins : WFh t genes (XH p lins) -> spells_top t (XH p lins) (enc (XH p lins)).
+Proof.
+  intros Hwf. rewrite enc_XH. destruct (enc_group t genes p lins Hwf) as [Hb Hl].
+  - apply Forall_forall. intros l _. apply Forall_forall. intros c _. apply enc_spells.
+  - exists p, lins, None, None, (map enc_lin lins). auto.
+Qed.
